@@ -1,7 +1,7 @@
 SPECIFICATION Spec
 CONSTANTS
   W = 2
-  NK = 3
+  NK = 4
   Poss = {0, 3}
   Tags = {0}
   OpNames = {"insert", "remove", "e_or_insert", "e_insert", "e_remove", "e_replace_none", "e_replace_some", "rc_or_insert", "rc_insert", "rc_remove", "rc_vacant_drop", "re_from_key_or_insert", "re_insert_hashed_nocheck", "re_remove", "e_occ_insert"}
@@ -9,5 +9,6 @@ CONSTANTS
   KIds = {1}
   Es = 8
   MaxB = 16
+  MaxPa = 0
 INVARIANTS Inv Refines LookupOK ChkOK CapacityOK Bounded
 CHECK_DEADLOCK FALSE
